@@ -33,6 +33,9 @@ func runC06(c *Ctx) {
 	if !c.need("C06.anchor", condH, "handler of *ConditionalExpression") {
 		return
 	}
+	// truthiness is defined on normalised values (a raw Go int 0 or float NaN is "some non-null value" to it): every
+	// value that leaves the node dispatcher is the normaliser's result (shared with C16)
+	c16NormaliseAs(c, d, "C06.conditions-are-normalised-values", false)
 	// the truthiness function: what `!!` calls
 	bb := parms[c.SK("SK_ExclamationExclamation")]
 	var T *ssa.Function
@@ -118,7 +121,12 @@ func c06Truthiness(c *Ctx, T *ssa.Function) {
 	// number: non-zero and not NaN
 	for _, cmp := range []int64{-1, 0, 1} {
 		for _, nan := range []bool{false, true} {
-			ps := []Pin{pinTypeCase(v, "*decimal.Big"), pinCall("decimal.Big).Cmp", cInt(cmp), nil), pinCall("decimal.Big).Sign", cInt(cmp), nil), pinCall("decimal.Big).IsNaN", constant.MakeBool(nan), nil)}
+			// (*Big).Sign is 0 for zero and for NaN (the library's definition), -1 / +1 otherwise
+			sign := cmp
+			if nan {
+				sign = 0
+			}
+			ps := []Pin{pinTypeCase(v, "*decimal.Big"), pinCall("decimal.Big).Cmp", cInt(cmp), nil), pinCall("decimal.Big).Sign", cInt(sign), nil), pinCall("decimal.Big).IsNaN", constant.MakeBool(nan), nil)}
 			r := c.foldWith(T, 1, ps...)
 			got, ok := boolResult(r, 0)
 			want := cmp != 0 && !nan
@@ -127,34 +135,49 @@ func c06Truthiness(c *Ctx, T *ssa.Function) {
 	}
 	// the zero test compares the operand with a zero, the NaN test is on the operand
 	zeroOK, nanOK := false, false
-	instrs(T, func(b *ssa.BasicBlock, i int, in ssa.Instruction) {
-		call, ok := in.(*ssa.Call)
-		if !ok {
-			return
+	// (in the truthiness function itself, or in the kernel it hands numbers to: there the operand is the number parameter)
+	scanned := []*ssa.Function{T}
+	operandOf := map[*ssa.Function]*ssa.Parameter{T: v}
+	if K := c.numberKernel(T); K != nil {
+		for _, p := range K.Params {
+			if p.Type().String() == "*github.com/ericlagergren/decimal.Big" {
+				scanned = append(scanned, K)
+				operandOf[K] = p
+			}
 		}
-		cal := calleeOf(call)
-		if cal == nil {
-			return
-		}
-		switch cal.String() {
-		case "(*github.com/ericlagergren/decimal.Big).Cmp":
-			if c.derivedFrom(call.Call.Args[0], v) {
-				for _, rt := range decOrigins(c).Roots(call.Call.Args[1]) {
-					if rt.Kind == "call" && rt.Fn != nil && (rt.Fn.Name() == c.P.alias("newDecimalBig") || strings.HasSuffix(rt.Fn.String(), "decimal.New") || strings.HasSuffix(rt.Fn.String(), "decimal.WithContext")) {
-						zeroOK = c.zeroConstruction(call.Call.Args[1])
+	}
+	for _, fn := range scanned {
+		v := operandOf[fn]
+		instrs(fn, func(b *ssa.BasicBlock, i int, in ssa.Instruction) {
+			call, ok := in.(*ssa.Call)
+			if !ok {
+				return
+			}
+			cal := calleeOf(call)
+			if cal == nil {
+				return
+			}
+			switch cal.String() {
+			case "(*github.com/ericlagergren/decimal.Big).Cmp":
+				if c.derivedFrom(call.Call.Args[0], v) {
+					for _, rt := range decOrigins(c).Roots(call.Call.Args[1]) {
+						if rt.Kind == "call" && rt.Fn != nil && (rt.Fn.Name() == c.P.alias("newDecimalBig") || strings.HasSuffix(rt.Fn.String(), "decimal.New") || strings.HasSuffix(rt.Fn.String(), "decimal.WithContext")) {
+							zeroOK = c.zeroConstruction(call.Call.Args[1])
+						}
 					}
 				}
+			case "(*github.com/ericlagergren/decimal.Big).Sign":
+				if c.derivedFrom(call.Call.Args[0], v) {
+					zeroOK = true
+					nanOK = true // Sign is 0 for NaN as well: the table above has decided what is done with it
+				}
+			case "(*github.com/ericlagergren/decimal.Big).IsNaN":
+				if c.derivedFrom(call.Call.Args[0], v) {
+					nanOK = true
+				}
 			}
-		case "(*github.com/ericlagergren/decimal.Big).Sign":
-			if c.derivedFrom(call.Call.Args[0], v) {
-				zeroOK = true
-			}
-		case "(*github.com/ericlagergren/decimal.Big).IsNaN":
-			if c.derivedFrom(call.Call.Args[0], v) {
-				nanOK = true
-			}
-		}
-	})
+		})
+	}
 	c.R.Check(rule, "number:zero-test-operands", pos, zeroOK, "the zero test must compare the operand itself with a number constructed as 0")
 	c.R.Check(rule, "number:nan-test-operand", pos, nanOK, "the NaN test must be made on the operand itself")
 	// anything else: not null
@@ -222,6 +245,59 @@ func callsTo(f, g *ssa.Function) []*ssa.Call {
 	return out
 }
 
+// numberKernel: the function K to which the truthiness function hands a number: folded with the operand's dynamic type
+// pinned to *decimal.Big, every return of T is the call K(.., n) on the asserted number. Asking K about a number is
+// asking T about it.
+func (c *Ctx) numberKernel(T *ssa.Function) *ssa.Function {
+	v := truthArg(T)
+	if v == nil {
+		return nil
+	}
+	r := c.foldWith(T, 0, pinTypeCase(v, "*decimal.Big"))
+	var K *ssa.Function
+	for _, ret := range r.Returns {
+		if len(ret.Results) != 1 {
+			return nil
+		}
+		call, ok := ret.Results[0].(*ssa.Call)
+		if !ok {
+			return nil
+		}
+		g := calleeOf(call)
+		if g == nil || !c.inModule(g) || g == T || (K != nil && g != K) {
+			return nil
+		}
+		onNumber := false
+		for _, a := range call.Call.Args {
+			for _, av := range assertedValues(T, v, "*decimal.Big") {
+				if a == av {
+					onNumber = true
+				}
+			}
+		}
+		if !onNumber {
+			return nil
+		}
+		K = g
+	}
+	return K
+}
+
+// kernelOnOperand: call asks the number kernel K about the asserted number of operand v of h.
+func kernelOnOperand(call *ssa.Call, K *ssa.Function, h *ssa.Function, v ssa.Value) bool {
+	if K == nil || calleeOf(call) != K {
+		return false
+	}
+	for _, a := range call.Call.Args {
+		for _, av := range assertedValues(h, v, "*decimal.Big") {
+			if a == av {
+				return true
+			}
+		}
+	}
+	return false
+}
+
 func c06Single(c *Ctx, T *ssa.Function, barms, parms map[int64]OpArm, condH *ssa.Function) {
 	const rule = "C06.single-truthiness"
 	users := []struct {
@@ -245,6 +321,17 @@ func c06Single(c *Ctx, T *ssa.Function, barms, parms map[int64]OpArm, condH *ssa
 			continue
 		}
 		calls := callsTo(u.h, T)
+		K := c.numberKernel(T)
+		if len(calls) == 0 && K != nil {
+			// ... or from the kernel T itself hands numbers to, asked about the operand's number
+			if ov := truthArg(u.h); ov != nil {
+				for _, kc := range callsTo(u.h, K) {
+					if kernelOnOperand(kc, K, u.h, ov) {
+						calls = append(calls, kc)
+					}
+				}
+			}
+		}
 		// ... or the decision is taken in the operator's own arm and handed to a shared selection helper as a flag
 		if len(calls) == 0 && (u.name == "&&" || u.name == "||") {
 			arm := barms[c.SK(map[string]string{"&&": "SK_AmpersandAmpersand", "||": "SK_BarBar"}[u.name])]
@@ -267,11 +354,15 @@ func c06Single(c *Ctx, T *ssa.Function, barms, parms map[int64]OpArm, condH *ssa
 		other := ""
 		instrs(u.h, func(b *ssa.BasicBlock, i int, in ssa.Instruction) {
 			if call, ok := in.(*ssa.Call); ok {
-				if cal := calleeOf(call); cal != nil && cal != T && c.inModule(cal) && cal.Signature.Results().Len() == 1 && isBoolType(cal.Signature.Results().At(0).Type()) {
+				if cal := calleeOf(call); cal != nil && cal != T && cal != K && c.inModule(cal) && cal.Signature.Results().Len() == 1 && isBoolType(cal.Signature.Results().At(0).Type()) {
 					other = c.P.FuncKey(cal)
 				}
 			}
 		})
+		if len(calls) == 0 && other == "" {
+			c.R.Undecided(rule, "user:"+u.name, u.pos, fmt.Sprintf("`%s` must take its decision from the one truthiness function %s: no call of it (or of its number kernel) found in the handler", u.name, c.P.FuncKey(T)))
+			continue
+		}
 		c.R.Check(rule, "user:"+u.name, u.pos, len(calls) >= 1 && other == "", fmt.Sprintf("`%s` must take its decision from the one truthiness function %s (calls found: %d, other decision helper: %q)", u.name, c.P.FuncKey(T), len(calls), other))
 	}
 	c.R.Floor(rule, 5)
@@ -577,9 +668,15 @@ func c06Not(c *Ctx, T *ssa.Function, parms map[int64]OpArm) {
 		c.R.Check(rule, fmt.Sprintf("bool:%v", bv), pos, ok && got == !bv, fmt.Sprintf("!%v must be %v", bv, !bv))
 	}
 	for _, tv := range []bool{true, false} {
-		r := c.foldWith(h, 1, pinTypeCase(v, "*decimal.Big"), pinCallFn(T, constant.MakeBool(tv), nil))
+		K := c.numberKernel(T)
+		r := c.foldWith(h, 1, pinTypeCase(v, "*decimal.Big"), pinCallFn(T, constant.MakeBool(tv), nil), pinCallFn(K, constant.MakeBool(tv), func(call *ssa.Call) bool { return kernelOnOperand(call, K, h, v) }))
 		got, ok := boxedBoolResult(r, 0)
-		c.R.Check(rule, fmt.Sprintf("number:truthy=%v", tv), pos, ok && got == !tv, "`!` of a number must be the negation of its truthiness")
+		if !ok {
+			// no constant result: the handler does not go through the truthiness function (or its number kernel) at all
+			c.R.Undecided(rule, fmt.Sprintf("number:truthy=%v", tv), pos, "`!` of a number must be the negation of its truthiness: the result does not fold once the truthiness function is pinned")
+		} else {
+			c.R.Check(rule, fmt.Sprintf("number:truthy=%v", tv), pos, got == !tv, "`!` of a number must be the negation of its truthiness")
+		}
 	}
 	r := c.foldWith(h, 2, pinTypeCase(v, "nil"))
 	got, ok := boxedBoolResult(r, 0)
